@@ -324,6 +324,45 @@ func domProofAppend(r *engine.Run, rule string) {
 			}
 		}
 	})
+	// ... or a call of a package helper that does the append on every path to its return
+	// (appendProofNode(persistTrie, data))
+	appendsPairs := func(h *ssa.Function) bool {
+		var sts []*ssa.Store
+		engine.Instrs(h, func(in ssa.Instruction) {
+			if st, ok := in.(*ssa.Store); ok {
+				if fld := engine.FieldOf(st.Addr); fld != nil && fld.Name() == "Pairs" {
+					if c, ok := st.Val.(*ssa.Call); ok {
+						if b, ok := c.Call.Value.(*ssa.Builtin); ok && b.Name() == "append" {
+							sts = append(sts, st)
+						}
+					}
+				}
+			}
+		})
+		if len(sts) == 0 {
+			return false
+		}
+		for _, ret := range engine.Returns(h) {
+			dom := false
+			for _, st := range sts {
+				if engine.InstrDominates(st, ret) {
+					dom = true
+				}
+			}
+			if !dom {
+				return false
+			}
+		}
+		return true
+	}
+	engine.Instrs(f, func(in ssa.Instruction) {
+		if c, ok := in.(*ssa.Call); ok {
+			if h := c.Call.StaticCallee(); h != nil && h != f && h.Pkg == f.Pkg && len(h.Blocks) > 0 && appendsPairs(h) {
+				appends = append(appends, c)
+				r.Touch(h)
+			}
+		}
+	})
 	nodeP := paramRole(f, "node")
 	arms := typeArms(f, nodeP)
 	n := 0
